@@ -39,6 +39,28 @@ def _ce(code, ft, reason):
 
 
 ZERO = fbits(0.0)
+K_GRANULARITY = 0.001   # RFC 9002 kGranularity (1 ms)
+
+
+def base_pto(conn):
+    """The probe timeout as the property means it (RFC 9002 section 6.2.1), read
+    from the recovery's RTT estimator fields and WITHOUT exponential back-off:
+    smoothed_rtt + max(4*rttvar, kGranularity) + max_ack_delay, or 2*initial_rtt
+    before the first RTT sample.  Independent of get_probe_timeout()."""
+    loss = conn._loss
+    if not loss._rtt_initialized:
+        return 2 * loss._rtt_initial
+    return loss._rtt_smoothed + max(4 * loss._rtt_variance, K_GRANULARITY) + loss.max_ack_delay
+
+
+def negotiated_idle(conn):
+    """RFC 9000 section 10.1: min of both ends' max_idle_timeout, but at least
+    three (base) probe timeouts.  Independent of _idle_timeout()."""
+    idle = conn._configuration.idle_timeout
+    remote = conn._remote_max_idle_timeout
+    if remote is not None:
+        idle = min(idle, remote)
+    return max(idle, 3 * base_pto(conn))
 
 
 class CSim(S.Sim):
@@ -214,21 +236,14 @@ class CloseMonitor:
         orig_idle = conn._idle_timeout
 
         def idle():
-            v = orig_idle()
-            if st.in_api is not None and not getattr(st, "peeking", False):
-                st.sub.append(["idle", v])
-            return v
+            # the model is fed the negotiated idle timeout computed independently
+            # at this very moment, not the value the connection computed
+            if st.in_api is not None:
+                st.sub.append(["idle", negotiated_idle(conn)])
+            return orig_idle()
         conn._idle_timeout = idle
 
         loss = conn._loss
-        orig_pto = loss.get_probe_timeout
-
-        def pto():
-            v = orig_pto()
-            if st.in_close_begin:
-                st.sub.append(["pto", v])
-            return v
-        loss.get_probe_timeout = pto
 
         orig_ldt = loss.on_loss_detection_timeout
 
@@ -243,6 +258,9 @@ class CloseMonitor:
             if is_initiator:
                 st.close_begin_init += 1
             st.in_close_begin = True
+            # the model is fed the base probe timeout computed independently at
+            # the moment the closing period starts
+            st.sub.append(["pto", base_pto(conn)])
             try:
                 return orig_cb(is_initiator=is_initiator, now=now)
             finally:
@@ -300,13 +318,10 @@ class CloseMonitor:
                 loss=c._loss.get_loss_detection_time(),
                 pacing=c._pacing_at,
             )
-        # for the oracle: probe timeout / idle timeout as the connection itself computes them
-        st.peeking = True
-        try:
-            st.pre["pto"] = c._loss.get_probe_timeout()
-            st.pre["idle"] = c._idle_timeout()
-        finally:
-            st.peeking = False
+        # for the oracle: probe timeout / negotiated idle timeout from the RTT
+        # estimator and the transport parameters (never from the methods under test)
+        st.pre["pto"] = base_pto(c)
+        st.pre["idle"] = negotiated_idle(c)
 
     def on_raise(self, sim, ep, name, args, e):
         self.eps[ep.name].raised = e
@@ -380,12 +395,8 @@ class CloseMonitor:
             return
         rec["state_after"] = c._state.name
         rec["pto_after"] = None
-        st.peeking = True
-        try:
-            rec["pto_after"] = c._loss.get_probe_timeout()
-            rec["idle_after"] = c._idle_timeout()
-        finally:
-            st.peeking = False
+        rec["pto_after"] = base_pto(c)
+        rec["idle_after"] = negotiated_idle(c)
         st.trace.append(rec)
         st.ops.append(line)
         st.outs.append(out + self.show(st))
